@@ -193,7 +193,8 @@ func (i *Int) EuclideanDiv(remainder *Nat, numerator, denominator *Int) (ok ct.B
 // If r is not nil, it will be set it to the remainder.
 // It returns ok=1 if the division was successful, ok=0 otherwise (i.e., division by zero).
 // The number of bits of the quotient will be
-// min(numerator.AnnouncedLen(), numerator.AnnouncedLen() - denominator.TrueLen() + 2) and
+// min(numerator.AnnouncedLen(), max(numerator.AnnouncedLen() - denominator.TrueLen() + 2, 1))
+// (a negative numerator never has quotient 0) and
 // the number of bits of the remainder will be denominator.AnnouncedLen().
 func (i *Int) EuclideanDivVarTime(remainder *Nat, numerator, denominator *Int) (ok ct.Bool) {
 	var qq, rr, n, d Nat
@@ -232,7 +233,7 @@ func (i *Int) EuclideanDivVarTime(remainder *Nat, numerator, denominator *Int) (
 		qOut.Set(&qan)
 	}
 	i.Set(&qOut)
-	i.Resize(min(numerator.AnnouncedLen(), numerator.AnnouncedLen()-denominator.TrueLen()+2))
+	i.Resize(min(numerator.AnnouncedLen(), max(numerator.AnnouncedLen()-denominator.TrueLen()+2, 1)))
 
 	if remainder != nil {
 		var rOut Int
@@ -291,7 +292,7 @@ func (i *Int) Div(remainder, numerator, denominator *Int) ct.Bool {
 // If r is not nil, it will be set it to the remainder.
 // It returns ok=1 if the division was successful, ok=0 otherwise (i.e., division by zero).
 // The number of bits of the quotient will be
-// min(numerator.AnnouncedLen(), numerator.AnnouncedLen() - denominator.TrueLen() + 2) and
+// min(numerator.AnnouncedLen(), max(numerator.AnnouncedLen() - denominator.TrueLen() + 2, 0)) and
 // the number of bits of the remainder will be denominator.AnnouncedLen().
 func (i *Int) DivVarTime(remainder, numerator, denominator *Int) (ok ct.Bool) {
 	if denominator.IsNonZero() == ct.False {
@@ -310,7 +311,7 @@ func (i *Int) DivVarTime(remainder, numerator, denominator *Int) (ok ct.Bool) {
 	var qInt saferith.Int
 	qInt.SetNat(&q)
 	qInt.Neg(qs)
-	qInt.Resize(min(numerator.AnnouncedLen(), numerator.AnnouncedLen()-denominator.TrueLen()+2))
+	qInt.Resize(min(numerator.AnnouncedLen(), max(numerator.AnnouncedLen()-denominator.TrueLen()+2, 0)))
 	i.Set((*Int)(&qInt))
 
 	if remainder != nil {
